@@ -58,7 +58,9 @@ def call_prim(I, node, name, args, kwargs, st):
         if s.is_vec():
             yield st, SInt(z3.Sum([z3.If(x == c.chars[0], 1, 0) for x in s.chars]) if s.chars else 0)
         else:
-            raise EngineLimit('count_of on a native string')
+            from .contracts_rt import CNT, count_axioms
+            count_axioms(I)
+            yield st, SInt(CNT(s.expr, c.z()))
         return
     if name == 'digits_value':
         s, = args
